@@ -28,7 +28,11 @@ of the font silently becomes the empty glyph of width 0.
 `seac_unresolved`, `seac_standard_codes`: the composite gets the base's outline followed by the accent's outline
 moved by `(adx, ady)` (DESIGN.md 10.1: `asb` and the composite's own side bearing do not enter) and the base's
 stems; it **keeps the width its own charstring declares**; the two codes are looked up in the **standard
-encoding**, whatever `Encoding` the font has (also when it has none).
+encoding**, whatever `Encoding` the font has (also when it has none).  The base and the accent must be ordinary
+glyphs: `seac_parts_not_composite` (a composite whose base or accent is the name of a composite of the font is left
+as decoded), hence `seac_size_bound` / `seac_total_bound` (no glyph of the result has more than twice the commands
+of the largest decoded glyph: chains of composites cannot double the outline at every link) and
+`seac_order_independent` (the result does not depend on the order in which the composites are processed).
 
 ## (d) the glyph set
 `glyph_names`, `glyph_names_sorted`, `glyphs_decoded`, `bad_charstring_fails`, `notdef_added`.
@@ -477,25 +481,23 @@ theorem seac_standard_codes : stdEnc.length = 256 ∧ codeName 101 = str "e" ∧
   simp [codesOK]
 
 /-- **composition**: a composite (recorded once) whose two codes are in `0 … 255` and name, in the standard
-encoding, decoded glyphs that are not composites themselves ends up with: the base's outline, then the accent's
-outline moved by `(adx, ady)`; the base's stems; the width **of its own charstring** (`own` is the composite as
-decoded).  This holds whatever `Encoding` the font has and whatever other composites it has — on the same base, on
-the same accent, before or after in name order. -/
+encoding, decoded glyphs that are not composites themselves (`Composable` with the names of all composites of the
+font) ends up with: the base's outline, then the accent's outline moved by `(adx, ady)`; the base's stems; the width
+**of its own charstring** (`own` is the composite as decoded).  This holds whatever `Encoding` the font has and
+whatever other composites it has — on the same base, on the same accent, before or after in name order. -/
 theorem seac_composed {vm : VM} {dsc : List (String × String)} {f : Font} {enc : List Bytes}
     {gs : List (Bytes × Glyph)} {ss pre post : List SeacInfo} {si : SeacInfo} {own base accent : Glyph}
     (h : extract vm dsc = .ok f) (hs : stageOf vm = some (enc, gs, ss)) (hss : ss = pre ++ si :: post)
-    (hc : Composable gs si own base accent)
-    (hpre : ∀ s ∈ pre, s.name ≠ si.name) (hpost : ∀ s ∈ post, s.name ≠ si.name)
-    (hb : ∀ s ∈ ss, s.name ≠ codeName si.seac.base) (ha : ∀ s ∈ ss, s.name ≠ codeName si.seac.accent) :
+    (hc : Composable (compositeNames ss) gs si own base accent)
+    (hpre : ∀ s ∈ pre, s.name ≠ si.name) (hpost : ∀ s ∈ post, s.name ≠ si.name) :
     lookupG f.glyphs si.name = some (composite own base accent.cmds si.seac) := by
   obtain ⟨enc', gs', ss', gs1, h1, h2, h3, h4⟩ := extract_ok_stage h
   rw [hs] at h1
   simp only [Option.some.injEq, Prod.mk.injEq] at h1
   obtain ⟨rfl, rfl, rfl⟩ := h1
   subst hss
-  have hself : codeName si.seac.accent ≠ si.name := fun e => ha si (by simp) e.symm
-  have := resolveSeacs_composite pre post si gs gs1 own base accent h2 hc hpre hpost
-    (fun s hs => hb s (by simp [hs])) (fun s hs => ha s (by simp [hs])) hself
+  have := resolveSeacs_composite _ pre post si gs gs1 own base accent h2 hc hpre hpost
+    (fun s hs => by simp [compositeNames]; exact Or.inl ⟨s, hs, rfl⟩) (by simp [compositeNames])
   rw [h3]
   exact lookupG_addNotdef_of_some _ _ _ this
 
@@ -511,7 +513,7 @@ theorem seac_base_unchanged {vm : VM} {dsc : List (String × String)} {f : Font}
   obtain ⟨rfl, rfl, rfl⟩ := h1
   rw [h3]
   apply lookupG_addNotdef_of_some
-  rw [resolveSeacs_unchanged ss gs gs1 n h2 hn]
+  rw [resolveSeacs_unchanged _ ss gs gs1 n h2 hn]
   exact hg
 
 /-- **independence**: two composites on the same base both carry the base's decoded outline as a prefix and their
@@ -520,30 +522,108 @@ theorem seac_independent {vm : VM} {dsc : List (String × String)} {f : Font} {e
     {gs : List (Bytes × Glyph)} {ss p1 q1 p2 q2 : List SeacInfo} {s1 s2 : SeacInfo} {o1 o2 base a1 a2 : Glyph}
     (h : extract vm dsc = .ok f) (hs : stageOf vm = some (enc, gs, ss))
     (e1 : ss = p1 ++ s1 :: q1) (e2 : ss = p2 ++ s2 :: q2)
-    (c1 : Composable gs s1 o1 base a1) (c2 : Composable gs s2 o2 base a2)
+    (c1 : Composable (compositeNames ss) gs s1 o1 base a1) (c2 : Composable (compositeNames ss) gs s2 o2 base a2)
     (u1 : (∀ s ∈ p1, s.name ≠ s1.name) ∧ (∀ s ∈ q1, s.name ≠ s1.name))
-    (u2 : (∀ s ∈ p2, s.name ≠ s2.name) ∧ (∀ s ∈ q2, s.name ≠ s2.name))
-    (b1 : ∀ s ∈ ss, s.name ≠ codeName s1.seac.base) (b1' : ∀ s ∈ ss, s.name ≠ codeName s1.seac.accent)
-    (b2 : ∀ s ∈ ss, s.name ≠ codeName s2.seac.base) (b2' : ∀ s ∈ ss, s.name ≠ codeName s2.seac.accent) :
+    (u2 : (∀ s ∈ p2, s.name ≠ s2.name) ∧ (∀ s ∈ q2, s.name ≠ s2.name)) :
     (∃ g1, lookupG f.glyphs s1.name = some g1 ∧ g1.widthX = o1.widthX ∧
       g1.cmds = base.cmds ++ a1.cmds.map (translate s1.seac.dx s1.seac.dy)) ∧
     (∃ g2, lookupG f.glyphs s2.name = some g2 ∧ g2.widthX = o2.widthX ∧
       g2.cmds = base.cmds ++ a2.cmds.map (translate s2.seac.dx s2.seac.dy)) :=
-  ⟨⟨_, seac_composed h hs e1 c1 u1.1 u1.2 b1 b1', rfl, rfl⟩, ⟨_, seac_composed h hs e2 c2 u2.1 u2.2 b2 b2', rfl, rfl⟩⟩
+  ⟨⟨_, seac_composed h hs e1 c1 u1.1 u1.2, rfl, rfl⟩, ⟨_, seac_composed h hs e2 c2 u2.1 u2.2, rfl, rfl⟩⟩
 
-/-- the accent is the composite itself (its own standard code as `achar`): the loop reads the outline it has just
-copied from the base, so the result is the base's outline twice, the second copy moved -/
-theorem seac_self_accent (gs : List (Bytes × Glyph)) (si : SeacInfo) (own base accent : Glyph)
-    (hc : Composable gs si own base accent) (ha : codeName si.seac.accent = si.name) :
-    resolveOne gs si = some (setG gs si.name (composite own base base.cmds si.seac)) :=
-  resolveOne_composite_self gs si own base accent hc ha
+/-- **the parts of a composite must be ordinary glyphs**: if the standard name of the base code or of the accent code
+is the name of some composite of the font, the composite is left as decoded (the glyph list is unchanged) -/
+theorem seac_parts_not_composite (ss : List SeacInfo) (gs : List (Bytes × Glyph)) (si : SeacInfo)
+    (h : (∃ s ∈ ss, s.name = codeName si.seac.base) ∨ (∃ s ∈ ss, s.name = codeName si.seac.accent)) :
+    resolveOne (compositeNames ss) gs si = some gs := by
+  apply resolveOne_parts_composite
+  rcases h with ⟨s, hs, e⟩ | ⟨s, hs, e⟩
+  · exact Or.inl (by simp only [compositeNames, List.mem_map]; exact ⟨s, hs, e⟩)
+  · exact Or.inr (by simp only [compositeNames, List.mem_map]; exact ⟨s, hs, e⟩)
 
-/-- a composite that cannot be composed — a code outside `0 … 255`, or a code whose standard name is no glyph of
-the font — is **not an error**: the glyph stays as decoded (its own width, no outline) -/
-theorem seac_unresolved (gs : List (Bytes × Glyph)) (si : SeacInfo)
-    (h : codesOK si.seac = false ∨ lookupG gs (codeName si.seac.base) = none ∨
-      lookupG gs (codeName si.seac.accent) = none) : resolveOne gs si = some gs :=
-  resolveOne_skip gs si h
+/-- the accent (or the base) is the composite itself — its own standard code as `achar` or `bchar`: since the
+composite is a composite, it is left as decoded (before the repair the loop doubled the base's outline) -/
+theorem seac_self_accent (ss : List SeacInfo) (gs : List (Bytes × Glyph)) (si : SeacInfo) (hsi : si ∈ ss)
+    (ha : codeName si.seac.accent = si.name ∨ codeName si.seac.base = si.name) :
+    resolveOne (compositeNames ss) gs si = some gs := by
+  apply seac_parts_not_composite
+  rcases ha with e | e
+  · exact Or.inr ⟨si, hsi, e.symm⟩
+  · exact Or.inl ⟨si, hsi, e.symm⟩
+
+/-- a composite that cannot be composed — a code outside `0 … 255`, a part that is itself a composite, or a code
+whose standard name is no glyph of the font — is **not an error**: the glyph stays as decoded (its own width, no
+outline) -/
+theorem seac_unresolved (comp : List Bytes) (gs : List (Bytes × Glyph)) (si : SeacInfo)
+    (h : codesOK si.seac = false ∨ codeName si.seac.base ∈ comp ∨ codeName si.seac.accent ∈ comp ∨
+      lookupG gs (codeName si.seac.base) = none ∨ lookupG gs (codeName si.seac.accent) = none) :
+    resolveOne comp gs si = some gs :=
+  resolveOne_skip comp gs si h
+
+theorem mem_compositeNames (ss : List SeacInfo) (s : SeacInfo) (h : s ∈ ss) : s.name ∈ compositeNames ss := by
+  simp only [compositeNames, List.mem_map]; exact ⟨s, h, rfl⟩
+
+/-- **size bound** (the point of the repair): after the composites are resolved no glyph has more than twice as
+many commands as the largest glyph *as decoded* — a chain of composites, each built on the previous one, cannot
+double the outline at every link -/
+theorem seac_size_bound (ss : List SeacInfo) (gs gs' : List (Bytes × Glyph))
+    (h : resolveSeacs (compositeNames ss) ss gs = some gs') :
+    ∀ p ∈ gs', p.2.cmds.length ≤ 2 * maxCmds gs :=
+  resolveSeacs_size_bound _ ss gs gs' h (mem_compositeNames ss)
+
+/-- … for the font that `type1.Read` returns -/
+theorem seac_size_bound_font {vm : VM} {dsc : List (String × String)} {f : Font} {enc : List Bytes}
+    {gs : List (Bytes × Glyph)} {ss : List SeacInfo} (h : extract vm dsc = .ok f) (hs : stageOf vm = some (enc, gs, ss)) :
+    ∀ p ∈ f.glyphs, p.2.cmds.length ≤ 2 * maxCmds gs := by
+  obtain ⟨enc', gs', ss', gs1, h1, h2, h3, h4⟩ := extract_ok_stage h
+  rw [hs] at h1
+  simp only [Option.some.injEq, Prod.mk.injEq] at h1
+  obtain ⟨rfl, rfl, rfl⟩ := h1
+  intro p hp
+  rw [h3] at hp
+  unfold addNotdef at hp
+  split at hp
+  · exact seac_size_bound ss gs gs1 h2 p hp
+  · rcases List.mem_cons.mp ((insertE_perm _ gs1).mem_iff.mp hp) with e | e
+    · subst e; exact Nat.zero_le _
+    · exact seac_size_bound ss gs gs1 h2 p e
+
+/-- the total number of outline commands after resolution is at most `2 · (number of glyphs) · (largest decoded
+glyph)`.  (A bound linear in the file size does not exist for any reader that expands composites: `k` composites
+on one glyph of `m` commands legitimately give `2·k·m` commands.) -/
+theorem seac_total_bound (ss : List SeacInfo) (gs gs' : List (Bytes × Glyph))
+    (h : resolveSeacs (compositeNames ss) ss gs = some gs') :
+    totalCmds gs' ≤ gs.length * (2 * maxCmds gs) := by
+  have hl : gs'.length = gs.length := by
+    have := congrArg List.length (resolveSeacs_names _ ss gs gs' h)
+    simpa [names] using this
+  rw [← hl]
+  exact totalCmds_le gs' _ (seac_size_bound ss gs gs' h)
+
+/-- what each composite becomes, from the glyphs as decoded only (no composite reads another composite) -/
+theorem seac_result (ss : List SeacInfo) (gs gs' : List (Bytes × Glyph))
+    (h : resolveSeacs (compositeNames ss) ss gs = some gs') (hnd : (compositeNames ss).Nodup) :
+    (∀ si ∈ ss, lookupG gs' si.name = (lookupG gs si.name).map (resolvedGlyph (compositeNames ss) gs si)) ∧
+    (∀ n, (∀ s ∈ ss, s.name ≠ n) → lookupG gs' n = lookupG gs n) :=
+  ⟨resolveSeacs_lookup _ ss gs gs' h (mem_compositeNames ss) hnd, fun n hn => resolveSeacs_unchanged _ ss gs gs' n h hn⟩
+
+/-- **order independence**: the composites of a font (distinct names) processed in two different orders give the
+same glyph under every name, and the same list of names; when the glyph names are distinct (a Go map) the two
+results are equal.  (`type1.Read` processes them in name order; the theorem says nothing hinges on that.) -/
+theorem seac_order_independent (ss1 ss2 : List SeacInfo) (gs g1 g2 : List (Bytes × Glyph))
+    (hp : ss1.Perm ss2) (hnd : (compositeNames ss1).Nodup)
+    (h1 : resolveSeacs (compositeNames ss1) ss1 gs = some g1) (h2 : resolveSeacs (compositeNames ss2) ss2 gs = some g2) :
+    names g1 = names g2 ∧ (∀ n, lookupG g1 n = lookupG g2 n) ∧ ((names gs).Nodup → g1 = g2) := by
+  have hc : ∀ n, n ∈ compositeNames ss2 ↔ n ∈ compositeNames ss1 := by
+    intro n
+    exact ((hp.map (·.name)).mem_iff).symm
+  rw [resolveSeacs_comp_congr _ _ hc ss2 gs] at h2
+  obtain ⟨a, b⟩ := resolveSeacs_perm (compositeNames ss1) ss1 ss2 gs g1 g2 hp hnd (mem_compositeNames ss1) h1 h2
+  refine ⟨a, b, ?_⟩
+  intro hn
+  apply glyphs_ext g1 g2 a _ b
+  rw [resolveSeacs_names _ ss1 gs g1 h1]
+  exact hn
 
 /-! ## (d) the glyph set -/
 
@@ -558,7 +638,7 @@ theorem glyph_names {vm : VM} {dsc : List (String × String)} {f : Font} (h : ex
   obtain ⟨_, _, _, k4⟩ := decodeAll_ok _ _ _ gs ss e5
   refine ⟨pd, cs, e2, e3, ?_⟩
   intro n
-  rw [h3, mem_names_addNotdef, resolveSeacs_names ss gs gs1 h2, k4]
+  rw [h3, mem_names_addNotdef, resolveSeacs_names _ ss gs gs1 h2, k4]
   apply or_congr Iff.rfl
   simp only [List.mem_map]
   constructor
@@ -577,7 +657,7 @@ theorem glyph_names_sorted {vm : VM} {dsc : List (String × String)} {f : Font} 
   have hs : SortedBy gs1 := by
     have := usableEntries_sorted (lenIVOf pd) _ (csEntries_sorted vm cs)
     unfold SortedBy at this ⊢
-    have hn := (resolveSeacs_names ss gs gs1 h2).trans k4
+    have hn := (resolveSeacs_names _ ss gs gs1 h2).trans k4
     unfold names at hn
     rw [← List.pairwise_map (f := fun (p : Bytes × Glyph) => p.1) (R := fun a b => nameLe a b = true), hn,
       List.pairwise_map]
@@ -618,7 +698,7 @@ theorem bad_charstring_fails {vm : VM} {dsc : List (String × String)} {pd cs : 
 
 /-- a missing `.notdef` is added: empty, with the width of `space` (0 when there is none) -/
 theorem notdef_added {vm : VM} {dsc : List (String × String)} {f : Font} (h : extract vm dsc = .ok f) :
-    ∃ enc gs ss gs1, stageOf vm = some (enc, gs, ss) ∧ resolveSeacs ss gs = some gs1 ∧
+    ∃ enc gs ss gs1, stageOf vm = some (enc, gs, ss) ∧ resolveSeacs (compositeNames ss) ss gs = some gs1 ∧
       (lookupG gs notdef = none → lookupG f.glyphs notdef = some (notdefFor gs1)) ∧
       (∀ g, lookupG gs1 notdef = some g → f.glyphs = gs1) := by
   obtain ⟨enc, gs, ss, gs1, h1, h2, h3, h4⟩ := extract_ok_stage h
@@ -627,7 +707,7 @@ theorem notdef_added {vm : VM} {dsc : List (String × String)} {f : Font} (h : e
     rw [h3]
     apply lookupG_addNotdef_absent
     rw [lookupG_eq_none_iff] at hn ⊢
-    rw [resolveSeacs_names ss gs gs1 h2]
+    rw [resolveSeacs_names _ ss gs gs1 h2]
     exact hn
   · intro g hg
     rw [h3, lookupG_addNotdef_present gs1 g hg]
@@ -666,9 +746,13 @@ def fontNegLenIV : List UInt8 := ofHex "252150532d41646f6265466f6e742d312e303a20
 /-- all Private entries present -/
 def fontPrivate : List UInt8 := ofHex "252150532d41646f6265466f6e742d312e303a2054657374203030312e3030300a25254372656174696f6e446174653a204d6f6e204a616e20322031353a30343a303520323030360a3132206469637420626567696e0a2f466f6e74496e666f20313220646963742064757020626567696e0a2f76657273696f6e20283030312e30303029206465660a2f4e6f74696365202861206e6f7469636529206465660a2f46756c6c4e616d6520285465737420466f6e7429206465660a2f46616d696c794e616d6520285465737429206465660a2f5765696768742028526567756c617229206465660a2f4974616c6963416e676c65202d31322e35206465660a2f6973466978656450697463682074727565206465660a2f556e6465726c696e65506f736974696f6e202d313030206465660a2f556e6465726c696e65546869636b6e6573732035302e35206465660a656e64206465660a2f466f6e744e616d65202f54657374206465660a2f456e636f64696e67205374616e64617264456e636f64696e67206465660a2f5061696e74547970652030206465660a2f466f6e74547970652031206465660a2f466f6e744d6174726978205b302e3030312030203020302e303031203020305d206465660a63757272656e746469637420656e640a647570202f5072697661746520323020646963742064757020626567696e0a2f5244207b737472696e672063757272656e7466696c6520657863682072656164737472696e6720706f707d20657865637574656f6e6c79206465660a2f4e44207b6465667d20657865637574656f6e6c79206465660a2f4e50207b7075747d20657865637574656f6e6c79206465660a2f426c756556616c756573205b2d3130203020353030203531305d206465660a2f4f74686572426c756573205b2d323530202d3234305d206465660a2f426c75655363616c6520302e3035206465660a2f426c756553686966742039206465660a2f426c756546757a7a2030206465660a2f5374644857205b35305d206465660a2f5374645657205b38302e355d206465660a2f466f726365426f6c642074727565206465660a3220696e646578202f43686172537472696e6773203420646963742064757020626567696e0a2f2e6e6f7464656620392052442010bf317079c757bf91204e440a2f737061636520392052442010bf317079c738be10204e440a2f612032362052442010bf31706754cac6e70c055783ac4ead66f9af9f17500cab24c4204e440a656e640a656e640a726561646f6e6c79207075740a7075740a647570202f466f6e744e616d6520676574206578636820646566696e65666f6e7420706f700a".toList
 
-/-- composites on composites (standard codes 65…68 = A…D): `A` = `B` + acute, `B` = e + acute, `C` = `B` + acute,
-`D` = e + `C` -/
-def fontChain : List UInt8 := ofHex "252150532d41646f6265466f6e742d312e303a2054657374203030312e3030300a25254372656174696f6e446174653a204d6f6e204a616e20322031353a30343a303520323030360a3132206469637420626567696e0a2f466f6e74496e666f20313220646963742064757020626567696e0a2f76657273696f6e20283030312e30303029206465660a2f4e6f74696365202861206e6f7469636529206465660a2f46756c6c4e616d6520285465737420466f6e7429206465660a2f46616d696c794e616d6520285465737429206465660a2f5765696768742028526567756c617229206465660a2f4974616c6963416e676c65202d31322e35206465660a2f6973466978656450697463682074727565206465660a2f556e6465726c696e65506f736974696f6e202d313030206465660a2f556e6465726c696e65546869636b6e6573732035302e35206465660a656e64206465660a2f466f6e744e616d65202f54657374206465660a2f456e636f64696e67205374616e64617264456e636f64696e67206465660a2f5061696e74547970652030206465660a2f466f6e74547970652031206465660a2f466f6e744d6174726978205b302e3030312030203020302e303031203020305d206465660a63757272656e746469637420656e640a647570202f5072697661746520323020646963742064757020626567696e0a2f5244207b737472696e672063757272656e7466696c6520657863682072656164737472696e6720706f707d20657865637574656f6e6c79206465660a2f4e44207b6465667d20657865637574656f6e6c79206465660a2f4e50207b7075747d20657865637574656f6e6c79206465660a3220696e646578202f43686172537472696e677320313020646963742064757020626567696e0a2f2e6e6f7464656620392052442010bf317079c757bf91204e440a2f737061636520392052442010bf317079c738be10204e440a2f612032362052442010bf31706754cac6e70c055783ac4ead66f9af9f17500cab24c4204e440a2f652033302052442010bf31705b07bfaf976a4df574416ab1bd6a6b94a5f70909e535290e495d204e440a2f61637574652032392052442010bf31704fa5f8005b0c91a8c6db1c0197c8724cdbf38bc2e5a561286c204e440a2f412031352052442010bf31707ed7cef69354e88e9f2c77204e440a2f422031362052442010bf31707ff0db444960cbf234173df3204e440a2f432031362052442010bf31707c6c8734ed641c74df27b92a204e440a2f442031352052442010bf31707d92a22aaa79e06566de56204e440a656e640a656e640a726561646f6e6c79207075740a7075740a647570202f466f6e744e616d6520676574206578636820646566696e65666f6e7420706f700a".toList
+/-- a chain of composites (standard codes 65…68 = A…D): `A` plain, `B` = seac(A, A; 10 10), `C` = seac(B, B; 20 20),
+`D` = seac(C, C; 30 30) -/
+def fontChain : List UInt8 := ofHex "252150532d41646f6265466f6e742d312e303a205420310a3132206469637420626567696e0a2f466f6e74496e666f203220646963742064757020626567696e0a656e64206465660a2f466f6e744e616d65202f54206465660a2f456e636f64696e67205374616e64617264456e636f64696e67206465660a2f466f6e74547970652031206465660a63757272656e746469637420656e640a647570202f50726976617465203820646963742064757020626567696e0a2f5244207b737472696e672063757272656e7466696c6520657863682072656164737472696e6720706f707d20657865637574656f6e6c79206465660a2f4e44207b6465667d20657865637574656f6e6c79206465660a3220696e646578202f43686172537472696e6773203620646963742064757020626567696e0a2f2e6e6f7464656620392052442010bf317079c757bf91204e440a2f412031372052442010bf31706754cac6f988c8a50c1834671b204e440a2f422031342052442010bf31707ed7cef69354e98bf411204e440a2f432031352052442010bf31707ff0db444960cbcf477bfb204e440a2f442031352052442010bf31707c6c8734ed641c775d61c1204e440a656e640a656e640a726561646f6e6c79207075740a7075740a647570202f466f6e744e616d6520676574206578636820646566696e65666f6e7420706f700a".toList
+
+/-- 25 links: `A` plain, `B` = seac(A, A), `C` = seac(B, B), …, `Z` = seac(Y, Y): before the repair `Z` had
+`4 · 2^25` commands -/
+def fontChain26 : List UInt8 := ofHex "252150532d41646f6265466f6e742d312e303a205420310a3132206469637420626567696e0a2f466f6e74496e666f203220646963742064757020626567696e0a656e64206465660a2f466f6e744e616d65202f54206465660a2f456e636f64696e67205374616e64617264456e636f64696e67206465660a2f466f6e74547970652031206465660a63757272656e746469637420656e640a647570202f50726976617465203820646963742064757020626567696e0a2f5244207b737472696e672063757272656e7466696c6520657863682072656164737472696e6720706f707d20657865637574656f6e6c79206465660a2f4e44207b6465667d20657865637574656f6e6c79206465660a3220696e646578202f43686172537472696e677320323820646963742064757020626567696e0a2f2e6e6f7464656620392052442010bf317079c757bf91204e440a2f412031372052442010bf31706754cac6f988c8a50c1834671b204e440a2f422031342052442010bf31707ec8a6a4b4756d2c840d204e440a2f432031342052442010bf31707ff65059cb0c7dc74dd1204e440a2f442031342052442010bf31707c69d19e45dac50500bf204e440a2f452031342052442010bf31707d9926e8bba4f357302f204e440a2f462031342052442010bf317062500848f12d742ef278204e440a2f472031342052442010bf31706386271ad854c3c7e535204e440a2f482031342052442010bf317060f1af843fcbd9491a3a204e440a2f492031352052442010bf31706121842760a6cd2d14f55c204e440a2f4a2031352052442010bf31706629fdb3a7eeef793f7c82204e440a2f4b2031352052442010bf3170675be5c449423fb01b2ae8204e440a2f4c2031352052442010bf317064b67aa26ffa7bd6fff8cc204e440a2f4d2031352052442010bf317065f84f036e98ae6d70f7dd204e440a2f4e2031352052442010bf31706aef0bf6a0db6dd1b614eb204e440a2f4f2031352052442010bf31706b11a3ef848301f627d1d7204e440a2f502031352052442010bf3170688c02874fb37583b28662204e440a2f512031352052442010bf317069bef8469d527338ec0673204e440a2f522031352052442010bf31706ea6939d97e4e967056abd204e440a2f532031352052442010bf31706fd7bd346f6f06d544250b204e440a2f542031352052442010bf31706c439a083cb38a09a407fa204e440a2f552031352052442010bf31706d74a24e916f5ef49d50f3204e440a2f562031352052442010bf3170524a8a20a7e77633fa118d204e440a2f572031352052442010bf3170537bab994837fd698fc27a204e440a2f582031352052442010bf317050d639d9394319205ba599204e440a2f592031352052442010bf317051188c6968c1af5bcb5d78204e440a2f5a2031352052442010bf317056005753723f09b76512c0204e440a656e640a656e640a726561646f6e6c79207075740a7075740a647570202f466f6e744e616d6520676574206578636820646566696e65666f6e7420706f700a".toList
 
 /-- a custom `Encoding` (1 e, 2 acute, 3 eacute, 4 nothing); `x1` = `… 101 194 seac` (own width 555),
 `eacute` = `… 1 2 seac`, `x2` = `… 1 4 seac` -/
@@ -735,12 +819,16 @@ def outlineE : List T1Encode.Cmd :=
 #guard check fontNoEnc fun f =>
   f.encoding == [] && glyphCmds f "eacute" == outlineE ++ (glyphCmds f "acute").map (translate 120 200) &&
   glyphWidth f "eacute" == 555
--- (c) order: `A` is built on the not yet resolved `B` (no outline), `C` on the resolved one; each keeps its own width
+-- (c) a chain: `B` (on the plain `A`) is composed, `C` (on the composite `B`) and `D` (on `C`) stay as decoded
 #guard check fontChain fun f =>
-  glyphCmds f "A" == (glyphCmds f "acute").map (translate 10 10) &&
-  glyphCmds f "B" == glyphCmds f "e" ++ (glyphCmds f "acute").map (translate 20 20) &&
-  glyphCmds f "C" == glyphCmds f "B" ++ (glyphCmds f "acute").map (translate 30 30) &&
-  glyphWidth f "A" == 100 && glyphWidth f "B" == 200 && glyphWidth f "C" == 300 && glyphWidth f "D" == 400
+  glyphCmds f "A" == [.moveTo 20 20, .lineTo 120 20, .lineTo 120 70, .closePath] &&
+  glyphCmds f "B" == glyphCmds f "A" ++ (glyphCmds f "A").map (translate 10 10) &&
+  glyphCmds f "C" == [] && glyphCmds f "D" == [] &&
+  glyphWidth f "A" == 500 && glyphWidth f "B" == 100 && glyphWidth f "C" == 200 && glyphWidth f "D" == 300
+-- (c) 25 links: no glyph has more than 2 · 4 commands
+#guard check fontChain26 fun f =>
+  f.glyphs.length == 27 && f.glyphs.all (fun p => p.2.cmds.length ≤ 8) && (glyphCmds f "B").length == 8 &&
+  glyphCmds f "Z" == []
 -- (d) names sorted
 #guard check fontSeac fun f =>
   f.glyphs.map (·.1) == [".notdef", "a", "acute", "e", "e.alt", "eacute", "egrave", "grave", "space"].map str
@@ -819,8 +907,15 @@ end PsVerif.Props.C06Read
 #print axioms PsVerif.Props.C06Read.seac_composed
 #print axioms PsVerif.Props.C06Read.seac_base_unchanged
 #print axioms PsVerif.Props.C06Read.seac_independent
+#print axioms PsVerif.Props.C06Read.seac_parts_not_composite
 #print axioms PsVerif.Props.C06Read.seac_self_accent
 #print axioms PsVerif.Props.C06Read.seac_unresolved
+#print axioms PsVerif.Props.C06Read.mem_compositeNames
+#print axioms PsVerif.Props.C06Read.seac_size_bound
+#print axioms PsVerif.Props.C06Read.seac_size_bound_font
+#print axioms PsVerif.Props.C06Read.seac_total_bound
+#print axioms PsVerif.Props.C06Read.seac_result
+#print axioms PsVerif.Props.C06Read.seac_order_independent
 #print axioms PsVerif.Props.C06Read.glyph_names
 #print axioms PsVerif.Props.C06Read.glyph_names_sorted
 #print axioms PsVerif.Props.C06Read.glyphs_decoded
